@@ -167,6 +167,7 @@ PROPS["C08"] = {
 
 PROPS["C09"] = {
     "pkg": "c09",
+    "variants": [{"name": "main"}, {"name": "conc", "race": True, "run": "^TestConcurrent$", "shards": {"thorough": 4}}],
     "technique": "model-based (stateful) property testing with rapid: generated configurations, Set/Get/Del/Clear/Stats histories and finite re-entrant OnDelete scripts, compared observation by observation with an abstract LRU list model",
     "level_text": ("Generated histories against an abstract model (ordered list, byte total, hit/miss counters) that executes the same re-entrant script in its "
                    "own eviction callback: every return value, every OnDelete(key,value) call in order, and Stats() after every action must match; the "
@@ -206,6 +207,7 @@ PROPS["C10"] = {
 
 PROPS["C11"] = {
     "pkg": "c11",
+    "variants": [{"name": "main"}, {"name": "conc", "race": True, "run": "^TestConcurrent$", "shards": {"thorough": 4}}],
     "technique": "model-based (stateful) property testing with rapid: operation histories over MapSet, SortedSliceSet (int and string) and RingBuffer compared with map / sorted-slice / push-list models after every step, with clone isolation and a fresh-twin check",
     "level_text": ("Generated histories against abstract models: after every step every observer (Has over the whole universe, Len, Values, Range incl. an "
                    "early-terminating callback, Equal between all live sets and against nil, String) of every live set, including all earlier clones and "
@@ -286,6 +288,7 @@ PROPS["C14"] = {
 
 PROPS["C15"] = {
     "pkg": "c15",
+    "variants": [{"name": "main"}, {"name": "conc", "race": True, "run": "^TestConcurrent$", "shards": {"thorough": 4}}],
     "technique": "fault-injecting property testing: scripted misbehaving readers/writers (short reads, (0,nil), data+error, EOF, failing writes) x limits x call-size sequences, against a stream-prefix + allowance model",
     "level_text": ("Generated fault sequences against a model: the underlying reader never receives a buffer larger than the remaining allowance, the delivered bytes are "
                    "a prefix of the stream (each byte encodes its offset), every (n, err) before exhaustion is exactly what the underlying reader returned for that "
